@@ -232,7 +232,7 @@ func (p *Prop) Generate(base uint64, index int, env *sim.Env) *sim.Case {
 		}
 		var h []LStep
 		for i := 0; i < n; i++ {
-			op := sim.Pick(r, []string{"get", "get", "get", "resolve", "deep", "xref", "rget", "clearcache", "reopen"})
+			op := sim.Pick(r, []string{"get", "get", "get", "resolve", "deep", "xref", "rget", "rget", "rshallow", "clearcache", "reopen"})
 			st := LStep{Op: op, Num: r.Intn(sp.N + 6)}
 			if i > 0 && r.Pct(25) {
 				st.Num = h[r.Intn(len(h))].Num // repeat an earlier number
@@ -538,6 +538,8 @@ func (p *Prop) Execute(c *sim.Case, env *sim.Env) *sim.Result {
 			break
 		}
 		lastOp := "open"
+		var soLive *simObjectReader
+		var rsLive *resolver.ObjectResolver
 		if rev < len(sp.History) {
 			for si, st := range sp.History[rev] {
 				if failClass != "" {
@@ -627,10 +629,43 @@ func (p *Prop) Execute(c *sim.Case, env *sim.Env) *sim.Result {
 					case present && ok && !e.Free && e.Aux == "" && (ent.Type == core.XRefEntryCompressed) != (e.InStm != 0):
 						fail("xref:wrong-kind", fmt.Sprintf("%s: entry type %v, expected %s", where, ent.Type, describe(e, present)))
 					}
+				case "rshallow":
+					// the long-lived resolver, shallow: references inside the value stay references
+					if rsLive == nil || soLive.r != rd {
+						soLive = &simObjectReader{r: rd}
+						rsLive = resolver.NewResolver(soLive)
+					}
+					soLive.calls, soLive.failAt, soLive.fired = 0, 0, false
+					oc := sim.Guard(t, 50_000_000, func() error {
+						if st.Num%2 == 0 {
+							got, err = rsLive.GetObjectResolved(st.Num)
+						} else {
+							got, err = rsLive.Resolve(core.IndirectRef{Number: st.Num, Generation: e.Gen})
+						}
+						return nil
+					})
+					if oc.Bad() {
+						fail("rshallow:"+oc.Kind, where+": "+oc.Class()+" "+oc.Msg)
+						break
+					}
+					check(got, err, false)
 				case "rget":
-					so := &simObjectReader{r: rd, failAt: st.Fail}
-					rs := resolver.NewResolver(so)
-					oc := sim.Guard(t, 50_000_000, func() error { got, err = rs.GetObjectResolvedDeep(st.Num); return nil })
+					// one resolver per reader, kept across the steps of the history (whatever it
+					// remembers must not change later answers)
+					if rsLive == nil || soLive.r != rd {
+						soLive = &simObjectReader{r: rd}
+						rsLive = resolver.NewResolver(soLive)
+					}
+					so, rs := soLive, rsLive
+					so.calls, so.failAt, so.fired = 0, st.Fail, false
+					deepCall := func() {
+						if st.Num%2 == 0 {
+							got, err = rs.GetObjectResolvedDeep(st.Num)
+						} else {
+							got, err = rs.ResolveDeep(core.IndirectRef{Number: st.Num, Generation: e.Gen})
+						}
+					}
+					oc := sim.Guard(t, 50_000_000, func() error { deepCall(); return nil })
 					if oc.Bad() {
 						fail("rget:"+oc.Kind, where+": "+oc.Class()+" "+oc.Msg)
 						break
@@ -643,7 +678,7 @@ func (p *Prop) Execute(c *sim.Case, env *sim.Env) *sim.Result {
 						}
 						// and the resolver must not stay poisoned: the same question again, fault-free
 						so.failAt = 0
-						oc2 := sim.Guard(t, 50_000_000, func() error { got, err = rs.GetObjectResolvedDeep(st.Num); return nil })
+						oc2 := sim.Guard(t, 50_000_000, func() error { deepCall(); return nil })
 						if oc2.Bad() {
 							fail("rget:"+oc2.Kind, where+" (retry): "+oc2.Class())
 							break
@@ -773,7 +808,7 @@ func features(sp *Spec) []string {
 		for _, s := range h {
 			add(s.Op == "clearcache", "hist=clearcache")
 			add(s.Op == "reopen", "hist=reopen")
-			add(s.Op == "rget", "hist=resolver")
+			add(s.Op == "rget" || s.Op == "rshallow", "hist=resolver")
 			add(s.Fail > 0, "fault=lookup")
 		}
 	}
